@@ -92,6 +92,13 @@ CH5 = [  # 5 heights
 CAT5 = [(1, 0, 1), (1, 0, 2), (1, 0, 4), (1, 1, 1), (1, 1, 5), (1, 2, 1), (2, 0, 4), (2, 0, 3), (1, 0, 6), (1, 1, 3)]
 
 
+CH2S = [  # 2 heights: one start block creating two multi-output transactions
+    [tx(1, 2), tx(2, 2)],                         # h1 creates A:0, A:1 and, later in the same block, B:0, B:1
+    [tx(3, 1, (1, 0)), tx(4, 1, (9, 0), (2, 1))], # h2 spends A:0 (input 0) and B:1 (input 1); A:1 and B:0 stay unspent
+]
+CAT2S = [(1, 0, 1), (1, 1, 1), (2, 0, 1), (2, 1, 1), (2, 0, 2), (1, 2, 1)]
+
+
 def tla_chain(ch):
     def t(x):
         ins = ", ".join("<<%d, %d>>" % (a, b) for a, b in x["ins"])
@@ -146,11 +153,17 @@ def config(tier, seed):
                      AllowStop=True, FalsePos=True, free=1500),
                 # three requests (one running, one deferred, one queued behind): small catalogue, no faults
                 dict(name="q3b", chains=[CH3], cat=[(1, 0, 1), (1, 1, 2), (1, 0, 3), (2, 0, 2)], best0s="{2}",
-                     MaxReq=3, MaxFail=0, AllowStop=False, FalsePos=False, free=1500)]
+                     MaxReq=3, MaxFail=0, AllowStop=False, FalsePos=False, free=1500),
+                # three requests sharing one start block that creates two requested transactions
+                # (several outputs of the first plus one of the second, duplicates, ...)
+                dict(name="q2s", chains=[CH2S], cat=CAT2S[:5], best0s="{2}",
+                     MaxReq=3, MaxFail=0, AllowStop=False, FalsePos=False, free=1000)]
     rc, rcat = random_chain(rng, 4)
     return [
         dict(name="t3", chains=[CH3], cat=CAT3, best0s="{2, 3}", MaxReq=3, MaxFail=1,
              AllowStop=False, FalsePos=False, free=8000),
+        dict(name="t2s", chains=[CH2S], cat=CAT2S, best0s="{1, 2}", MaxReq=3, MaxFail=1,
+             AllowStop=False, FalsePos=False, free=4000),
         dict(name="t3s", chains=[CH3], cat=CAT3, best0s="{1, 2, 3}", MaxReq=2, MaxFail=2,
              AllowStop=True, FalsePos=True, free=4000),
         dict(name="t4", chains=[CH4], cat=CAT4, best0s="{3, 4}", MaxReq=2, MaxFail=2,
